@@ -96,7 +96,8 @@ fn alpha_boundary() -> NodeAlphabet {
             (b(5, 0), b(4, 0)),
             (b(5, 1), b(4, 1)),
         ],
-        invalid: vec![4],
+        // InvalidBlock for the window's first slot and for a later slot of the same window
+        invalid: vec![4, 5],
         first_shreds: vec![4],
         windows: vec![0, 4],
         forge: vec![],
@@ -143,7 +144,8 @@ fn alpha_handover() -> NodeAlphabet {
             (b(5, 0), b(4, 0)),
             (b(3, 1), b(2, 0)),
         ],
-        invalid: vec![4],
+        // InvalidBlock for the window's first slot and for a later slot of the same window
+        invalid: vec![4, 5],
         first_shreds: vec![4],
         windows: vec![0, 4],
         forge: vec![],
